@@ -95,13 +95,14 @@ def rule_R2(ctx, f, b):
                   "come from parameters / BTreeSet iteration); every HashMap iteration in Desc::new is order-insensitive or sorted before it escapes")
     for s, o in un.enumerate_sites(f, only=lambda bb: bb.path == b.path):
         ctx.ob(rid, s.key(o), s.cls in ("insensitive", "sorted"), "hash-container iteration in Desc::new must not determine any order (%s) %s" % (s.cls, s.detail), site=s.call.span)
-    for h, ws, fin in hashers(b):
+    for hi, (h, ws, fin) in enumerate(hashers(b)):
+        hname = "hasher%d" % hi
         for i, w in enumerate(ws):
             v = peel(w.args[1], transparent=BYTES_T)
             e = elem_of(v)
             if e is None:
                 ok = v[0] == "param" or (v[0] == "call" and is_call(v, "Clone::clone") and peel(v)[0] == "param") or peel(v)[0] == "param"
-                ctx.ob(rid, "write@%s#%d|source" % (show(h)[:24], i), ok, "a hashed component must be a parameter or an element of an ordered container (found %s)" % show(w.args[1]), site=w.span)
+                ctx.ob(rid, "write@%s#%d|source" % (hname, i), ok, "a hashed component must be a parameter or an element of an ordered container (found %s)" % show(w.args[1]), site=w.span)
                 continue
             kind = ordered_container(b, e[0])
             ok = kind in ("btree", "vec") and not [a for a in e[1] if a not in ("into_iter", "iter")]
@@ -113,9 +114,9 @@ def rule_R2(ctx, f, b):
                         ee = elem_of(s_) if isinstance(s_, tuple) and s_ and s_[0] == "field" else None
                         if ee and ordered_container(b, ee[0]) == "hash":
                             ok2 = False
-                    ctx.ob(rid, "write@%s#%d|push#%d|ordered-source" % (show(h)[:24], i, pi), ok2,
+                    ctx.ob(rid, "write@%s#%d|push#%d|ordered-source" % (hname, i, pi), ok2,
                            "a value pushed into a hashed Vec must not come from iterating a hash container (found %s)" % show(p.args[1]), site=p.span)
-            ctx.ob(rid, "write@%s#%d|ordered" % (show(h)[:24], i), ok, "the hasher must iterate an ordered container without reordering adapters (found %s over %s)" % (e[1], kind), site=w.span)
+            ctx.ob(rid, "write@%s#%d|ordered" % (hname, i), ok, "the hasher must iterate an ordered container without reordering adapters (found %s over %s)" % (e[1], kind), site=w.span)
 
 
 def rule_R3(ctx, f, b):
